@@ -38,11 +38,14 @@ def declared(case):
                  1 if t["static"] else 0, t["static"], CMP[t.get("cmp", "equality")])
         base[t["name"]] = d
         rows0.append([t["name"], d])
+    ITEMS = ("KTraitList", "KTraitDict", "KTraitSet", "KMethod")
     shared = case.get("shared_ct")
     if shared:    # one CTrait object under several names: each name is its own definition (static handler on a clone)
         for n in sorted(shared["names"]):
             st = n in shared["static"]
             rows0.append([n, tdef("KConst", [shared["value"]], 0, 0, 1 if st else 0, st)])
+    # the "<name>_items" event traits of the container traits (rows 1000 + n)
+    rows0 += [[n + 1000, tdef("KEvent", [], 0, 0, 0, False)] for n, d in list(rows0) if d["kind"] in ITEMS]
     special = []
     wild = case.get("wild")
     if wild:      # the prefix trait (row -3) and, per name with a static handler, the definition it will get (3000 + n)
